@@ -243,6 +243,19 @@ for fmt in ("xyz", "pdb", "mol2", "sdf"):
             except LoadError:
                 pass
             continue
+        if len(toks) >= 2 and all(t.isdigit() for t in toks) and ln >= 2 and lines[ln - 2].startswith("@<TRIPOS>MOLECULE"):
+            # the MOL2 counts line (atoms, bonds, ...): corrupt each interpreted counter in turn, same width
+            for k, t in enumerate(toks[:2]):  # atom and bond counts: the counters a reader needs to find the frame's records
+                cases += 1
+                t2 = list(toks); t2[k] = t[:-1] + "x"
+                l2 = list(lines); l2[ln] = " ".join(t2) + "\n"
+                with open(fn, "w") as fh: fh.write("".join(l2))
+                try:
+                    got = list(load_many(fn))
+                    fails.append(((fmt, ln, "integer counter", k), "malformed frame skipped or sequence ended silently", len(got)))
+                except LoadError:
+                    pass
+            continue
         if not any(t.replace(".", "").replace("-", "").isdigit() and "." in t for t in toks): continue
         cases += 1
         tok = next(t for t in toks if "." in t and t.replace(".", "").replace("-", "").isdigit())
